@@ -172,6 +172,12 @@ def run_case(case):
         items = case['items']
 
         def script():
+            if case.get('rerun'):
+                # the same Clock object has timed an earlier run (delays taken, stopped): a run starts its own time line
+                clk.start()
+                clk.pause_for(case['rerun'])
+                clk.stop()
+                _mark('rerun')
             clk.start()
             for i, it in enumerate(items):
                 w = works[i] if i < len(works) else 0.0
@@ -189,9 +195,16 @@ def run_case(case):
         job = ScriptJob.from_string(case['script'])
         if job.program is None:
             return {'outcome': 'compile-error', 'errors': job.compile_errors}
-        wi = iter(works)
-        s.next_work = lambda: next(wi, 0.0)
-        s.spawn(job.execute, 'J1')
+        wi = [iter(works)]
+        s.next_work = lambda: next(wi[0], 0.0)
+
+        def twice():
+            # ScriptJob.execute reuses its Machine and Clock: the second run has a time line of its own
+            job.execute()
+            _mark('rerun')
+            wi[0] = iter(works)
+            job.execute()
+        s.spawn(twice if case.get('rerun') else job.execute, 'J1')
         label = 'J1'
     # the run is over when the script thread has finished and the clock thread has either
     # finished too or been given 60 more steps (a clock thread that outlives its script is
@@ -228,7 +241,11 @@ def extract(s, label):
     outer = any(k == 'mark' and n == 'mw_enter' for (_, lab, k, n, v) in s.log if lab == label)
     enter = ('mw_enter',) if outer else ('pf_enter', 'wu_enter')
     leave = ('mw_exit',) if outer else ('pf_exit', 'wu_exit')
-    for (step, lab, kind, name, value) in s.log:
+    log = s.log
+    marks = [i for i, (step, lab, kind, name, value) in enumerate(log) if lab == label and kind == 'mark' and name == 'rerun']
+    if marks:
+        log = log[marks[-1] + 1:]       # a second run on the same objects: only that run is judged
+    for (step, lab, kind, name, value) in log:
         if lab != label:
             continue
         if kind == 'time':
@@ -688,6 +705,9 @@ def run(ctx):
     n_clock = 2500 if ctx.thorough() else 260
     n_script = 1200 if ctx.thorough() else 110
     clock_cases = [gen_clock_case(rng, i) for i in range(n_clock)]
+    for i, c in enumerate(clock_cases):
+        if i % 9 == 4 and c['tick'] <= 1.0:
+            c['rerun'] = rng.choice([0.5, 1.0, 2.5])
     ctx.stage('generate')
     check_cases(ctx, clock_cases, 'c')
     ctx.stage('clock-level')
@@ -698,6 +718,9 @@ def run(ctx):
             c.update({'kind': 'script', 'tick': 0.5, 'schedule': [], 'policy': pol, 'pseed': i})
             script_cases.append(c)
     script_cases += [gen_script_case(rng, i) for i in range(n_script)]
+    for i, c in enumerate(script_cases):
+        if i % 7 == 3 and all(w[0] == 'D' for w in c.get('waits', [('T',)])):
+            c['rerun'] = True
     check_cases(ctx, script_cases, 's')
     ctx.stage('end-to-end')
     ctx.extra['clock_cases'] = len(clock_cases)
